@@ -126,6 +126,16 @@ theorem step_stops_only (c : Connection S) (data : Bytes)
   · obtain ⟨s, hs⟩ := Option.isSome_iff_exists.mp ha
     exact Or.inr (authEnded_only_change_user af c data s hs)
 
+/-- **COM_QUIT is not answered**: the iteration adds nothing to the wire but the sequence reset, changes nothing else, and ends
+    the loop — whatever follows the command byte -/
+theorem quit_exchange (c : Connection S) (rest : Bytes) :
+    command_step E cp pc coldef parse app ur fls fcd other err af c (1 :: rest)
+      = ({ c with _executing := false, out := c.out ++ [Ev.reset_seq] }, false) := by
+  have hu : untranslated.contains (1 : UInt8).toNat = false := by decide
+  have hd : dispatch E cp pc coldef parse app ur fls fcd other ({ c with _executing := true } : Connection S) (1 : UInt8).toNat rest = .ok none :=
+    (dispatch_quit_iff E cp pc coldef parse app ur fls fcd other _ _ rest).mpr rfl
+  simp only [command_step, hu, Bool.false_eq_true, if_false, hd]
+
 /-- the loop, one packet at a time -/
 theorem loop_cons (c : Connection S) (p : Bytes) (ps : List Bytes) :
     command_loop E cp pc coldef parse app ur fls fcd other err af c (p :: ps)
